@@ -17,14 +17,14 @@ CLAIMED = {
             "Theorems (all documents of the class; strings of any characters, bare words, booleans, null, integers; any length, any depth): the canonical text is accepted by the strict reader, "
             "which returns the same document, and canonicalising it again gives the same bytes, for flat documents (C01_flat_fixed_point), arbitrarily nested blocks (C01_tree_fixed_point), META + trees "
             "(C01_meta_fixed_point), sections with ids 1 / 2b / NAME nested to any depth (C01_sect_fixed_point), expressions with every operator (C01_expr_fixed_point), list values (C01_list_fixed_point), "
-            "comment-bearing trees (emitter+lexer half C01_ctree_emit_then_lex and parser half C02_ctree_document_read; composed where evidence lists C01ctree), and the unified classes where evidence "
+            "trees with leading / trailing / end-of-document comments (C01_ctree_fixed_point), and the unified classes where evidence "
             "lists C01unified / C01document; emit ignores positions. PARTIAL: the classes are proved one family at a time; mixtures outside the listed unified classes, floats inside documents, inline "
             "maps, holographic values and zones in lists/META (findings C01N5, C01N6) are backed by the tie only: regenerated lexer/emitter/parser tables pinned by decide facts; exact correspondence "
             "(canonical text, strict verdict) of the full transcription on generated documents, the shipped corpus, exhaustive token sequences and mutations; oracle on the real code incl. tools."),
     "C02": ("text", "Lean 4 proof (content preservation at document level per construct; comments attached and kept; reader value typing; list values) + content-model oracle + AST correspondence",
             "Theorems: reading the canonical text of every document of the classes of C01 yields exactly its name, keys, nesting, order, section ids and values with their types, nothing else, through "
             "the strict and lenient entry points with the exact warning list (C02_flat/_tree/_meta/_sect/_list_content_preserved, ..._lenient_read_silent); every leading, trailing (also empty) and "
-            "end-of-document comment of a tree is attached to its node and read back as written, orphan comments stay in their block (C02_ctree_document_read, C02_comment_orphans, C02_otree_document_read); "
+            "end-of-document comment of a tree is attached to its node and read back as written, orphan comments stay in their block (C02_ctree_content_preserved, C02_ctree_comments_in_order, C02_comment_orphans, C02_otree_document_read); "
             "parseValue on (nested) list tokens of any length returns exactly the list (C02_nested_list_typed). PARTIAL: mixtures outside the unified classes, inline maps, holographic values, zones in "
             "lists are backed by the content oracle (content known independently of any parser, covering matrix value kind x position) and the correspondence on full ASTs with positions."),
     "C03": ("text", "Lean 4 proof (convergence of every whitespace/quote spelling of flat documents, every alias spelling of expressions, every layout of list values, # section markers) + convergence search",
